@@ -349,6 +349,16 @@ def loop_over_map(interp, st, env, view):
         return
     sig = loop_signature(st) + ' -> ' + ','.join(sorted(assigned_targets(st)))
     inv = interp.loop_invariants.get(sig) or interp.loop_invariants.get(loop_signature(st))
+    post_m = None
+    if inv is None:
+        # invariants attached by STRUCTURE (robust against renamed locals): the contract supplies a matcher that reads the
+        # roles (which object is iterated, which is written, which name holds the ratio ...) off the loop's AST
+        for matcher, inv_fn, post_fn in interp.__dict__.get('loop_invariant_matchers', []):
+            roles = matcher(interp, st)
+            if roles is not None:
+                inv = (lambda ctx, k, f=inv_fn, r=roles: f(ctx, k, r))
+                post_m = (lambda ctx, f=post_fn, r=roles: f(ctx, r)) if post_fn is not None else None
+                break
     m = view.m
     key, idx, n = m.enum(interp)
     pre = snapshot(interp, st, env)
@@ -385,7 +395,7 @@ def loop_over_map(interp, st, env, view):
         raise PathEnd()
     if inv is not None:
         interp.assume(inv(ctx, n))
-    post = interp.__dict__.get('loop_post', {}).get(sig)
+    post = interp.__dict__.get('loop_post', {}).get(sig) or post_m
     if post is not None:
         post(ctx)
     interp.exec_block(st.orelse, env)
@@ -505,7 +515,9 @@ def loop_over_list(interp, st, env, lst, sl=None):
     """for x in <list of arbitrary length>: cut with the contract's invariant (or havoc only)."""
     sig = loop_signature(st)
     inv = interp.loop_invariants.get(sig)
-    handler = interp.__dict__.get('list_loop_handlers', {}).get(sig)
+    handlers = interp.__dict__.get('list_loop_handlers', {})
+    # by full text, or by what is iterated (so that renaming the loop variable does not lose the handler)
+    handler = handlers.get(sig) or handlers.get('iter:' + ast.unparse(st.iter))
     if handler is not None:
         return handler(interp, st, env, lst, sl)
     raise Unsupported(f"loop over a list of arbitrary length without a handler: {sig}")
